@@ -1,5 +1,8 @@
 import Swat4.Model.UseCases.Discovery
 import Swat4.Lemmas.Prog
+import Swat4.Lemmas.CleanComplete
+import Swat4.Lemmas.RowInv
+import Swat4.Properties.C11
 /-!
 # C14 — Servers expire by the clock: fresh ones are never cleaned, stale ones are
 
@@ -209,6 +212,544 @@ theorem clean_instances_count (s : AbsState) (now retention : Int) :
     ((cleanInstances retention).run s now).2 =
       .ok (s.instances.toList.filter fun kv => decide (kv.2.2 ≤ now - retention)).length := by
   simp [cleanInstances, AbsState.insClear, Call.exec]
+
+/-! ## a cleanup pass removes every stale record, and only those -/
+
+/-- the staleness condition of the pass on a row: `servers:updated` score before the cutoff -/
+theorem stale_pred (cutoff : Int) (row : SRow) :
+    ({ updatedBefore := some cutoff } : FilterSet).pred row = true ↔ row.updatedAt < cutoff := by
+  simp [FilterSet.pred, Status.has, Status.hasAny]
+
+/-- **C14 (a pass is complete and exact).**  `ServerCleaner.Clean` run at clock `now` with retention `ret`, from a store
+in which every row sits under its own key: every record not written since `now − ret` (update time `< now − ret`, the
+model's exact scan condition) is gone afterwards, every other record is stored unchanged — so each key is either
+erased or untouched —, instances and queue are untouched, and the pass reports exactly the stale records as removed
+and no error. -/
+theorem clean_complete (s : AbsState) (now ret : Int) (hk : Keyed s) :
+    (∀ (k : Nat) (row : SRow), s.servers[k]? = some row → row.updatedAt < now - ret → ((cleanServers ret).run s now).1.servers[k]? = none) ∧
+    (∀ (k : Nat) (row : SRow), s.servers[k]? = some row → ¬ row.updatedAt < now - ret → ((cleanServers ret).run s now).1.servers[k]? = some row) ∧
+    (∀ k : Nat, ((cleanServers ret).run s now).1.servers[k]? = none ∨ ((cleanServers ret).run s now).1.servers[k]? = s.servers[k]?) ∧
+    ((cleanServers ret).run s now).1.instances = s.instances ∧ ((cleanServers ret).run s now).1.queue = s.queue ∧
+    ((cleanServers ret).run s now).2 = ((s.filter { updatedBefore := some (now - ret) }).length, 0) := by
+  obtain ⟨f1, f2⟩ := CleanComplete.filter_scanned s { updatedBefore := some (now - ret) } hk
+  obtain ⟨r1, r2, r3, _, r5⟩ := CleanComplete.removeAll_scanned (now - ret) now (s.filter { updatedBefore := some (now - ret) }) s 0 0 f1
+  have hrun : (cleanServers ret).run s now = (removeAll (now - ret) (s.filter { updatedBefore := some (now - ret) }) 0 0).run s now := rfl
+  rw [hrun]
+  have hstale : ∀ (k : Nat) (row : SRow), s.servers[k]? = some row → row.updatedAt < now - ret →
+      ((removeAll (now - ret) (s.filter { updatedBefore := some (now - ret) }) 0 0).run s now).1.servers[k]? = none := by
+    intro k row hrow hlt
+    rw [r1 k, if_pos ((f2 k).2 ⟨row, hrow, (stale_pred _ _).2 hlt⟩)]
+  have hfresh : ∀ k : Nat, (¬ ∃ row : SRow, s.servers[k]? = some row ∧ row.updatedAt < now - ret) →
+      ((removeAll (now - ret) (s.filter { updatedBefore := some (now - ret) }) 0 0).run s now).1.servers[k]? = s.servers[k]? := by
+    intro k hn
+    rw [r1 k, if_neg]
+    intro hm
+    obtain ⟨row, hrow, hp⟩ := (f2 k).1 hm
+    exact hn ⟨row, hrow, (stale_pred _ _).1 hp⟩
+  refine ⟨hstale, ?_, ?_, r2, r3, by rw [r5]; simp⟩
+  · intro k row hrow hn
+    rw [hfresh k, hrow]
+    rintro ⟨row', hrow', hlt⟩
+    rw [hrow] at hrow'; cases hrow'; exact hn hlt
+  · intro k
+    by_cases h : ∃ row : SRow, s.servers[k]? = some row ∧ row.updatedAt < now - ret
+    · obtain ⟨row, hrow, hlt⟩ := h
+      exact Or.inl (hstale k row hrow hlt)
+    · exact Or.inr (hfresh k h)
+
+/-! ## `refreshedAt ≤ updatedAt` is an invariant -/
+
+/-- every stored record's refresh time is not after its last-write time -/
+def RefLeUpd (s : AbsState) : Prop :=
+  ∀ (k : Nat) (row : SRow), s.servers[k]? = some row → ∀ t, row.svr.refreshedAt = some t → t ≤ row.updatedAt
+
+/-- the clock value `now` is not before any stored last-write time (the clock never went backwards) -/
+def ClockAfter (s : AbsState) (now : Int) : Prop :=
+  ∀ (k : Nat) (row : SRow), s.servers[k]? = some row → row.updatedAt ≤ now
+
+theorem ClockAfter.mono {s : AbsState} {now now' : Int} (h : ClockAfter s now) (hle : now ≤ now') : ClockAfter s now' :=
+  fun k row hrow => Int.le_trans (h k row hrow) hle
+
+/-- the row predicate behind `RefLeUpd ∧ ClockAfter` -/
+def refRow (now : Int) (row : SRow) : Prop :=
+  row.updatedAt ≤ now ∧ ∀ t, row.svr.refreshedAt = some t → t ≤ row.updatedAt
+
+theorem refRow_closed (now : Int) : RowInv.Closed now (refRow now) where
+  fld := by
+    intro sv sv' u _ hr h
+    exact ⟨h.1, fun t ht => h.2 t (by rw [← hr]; exact ht)⟩
+  read := by
+    intro sv u h
+    exact ⟨Int.le_refl _, fun t ht => Int.le_trans (h.2 t ht) h.1⟩
+
+theorem allRows_refRow (s : AbsState) (now : Int) : RowInv.AllRows (refRow now) s ↔ RefLeUpd s ∧ ClockAfter s now :=
+  ⟨fun h => ⟨fun k row hr => (h k row hr).2, fun k row hr => (h k row hr).1⟩,
+   fun h k row hr => ⟨h.2 k row hr, h.1 k row hr⟩⟩
+
+/-- what a repository call must satisfy to keep the invariant at clock `now`: the record it writes, and whatever its
+conflict callback makes of a stored record whose refresh time is `≤ now`, has a refresh time `≤ now` -/
+def WritesRefLeNow (now : Int) : {β : Type} → Call β → Prop := @RowInv.CallOK now (refRow now)
+
+/-- **`RefLeUpd` is preserved by every repository call** that writes only records refreshed no later than the clock
+(`WritesRefLeNow`; every call the use cases issue is one: `usecases_write_refLeNow`), under a clock that is not
+before any stored update time; `Keyed` and `ClockAfter` are preserved along. -/
+theorem exec_refLeUpd {β : Type} (c : Call β) (s : AbsState) (now : Int) (hc : WritesRefLeNow now c)
+    (hk : Keyed s) (hr : RefLeUpd s) (hcl : ClockAfter s now) :
+    Keyed (c.exec s now).1 ∧ RefLeUpd (c.exec s now).1 ∧ ClockAfter (c.exec s now).1 now := by
+  obtain ⟨a, b, _⟩ := RowInv.exec_inv (refRow_closed now) c s hc hk ((allRows_refRow s now).2 ⟨hr, hcl⟩)
+  exact ⟨a, ((allRows_refRow _ now).1 b).1, ((allRows_refRow _ now).1 b).2⟩
+
+/-- for the invariant every key may be refreshed now and a never-refreshed record may be created -/
+theorem refRow_fresh (now : Int) (a : Addr) : RowInv.Fresh now (refRow now) a ∧ RowInv.Blank now (refRow now) a :=
+  ⟨fun sv _ hr => ⟨Int.le_refl _, fun t ht => by rw [hr] at ht; cases ht; exact Int.le_refl _⟩,
+   fun sv _ hr => ⟨Int.le_refl _, fun t ht => by rw [hr] at ht; cases ht⟩⟩
+
+/-- **every call of every use case writes only records refreshed no later than the clock** (walk over the program
+trees: report, keepalive, removal, probe outcome handling, refresh, revival, REST submission, the cleaners, listing) -/
+theorem usecases_write_refLeNow (now : Int) :
+    (∀ z m req, RowInv.Pres now (refRow now) (UC.report z m req)) ∧
+    (∀ i ip, RowInv.Pres now (refRow now) (UC.renew i ip)) ∧
+    (∀ i a, RowInv.Pres now (refRow now) (UC.remove i a)) ∧
+    (∀ prb outcome, RowInv.Pres now (refRow now) (UC.probe prb outcome)) ∧
+    (∀ m d, RowInv.Pres now (refRow now) (UC.refresh m d)) ∧
+    (∀ m a b c d e f, RowInv.Pres now (refRow now) (UC.revive m a b c d e f)) ∧
+    (∀ z m a, RowInv.Pres now (refRow now) (UC.addServer z m a)) ∧
+    (∀ ret, RowInv.Pres now (refRow now) (cleanServers ret)) ∧
+    (∀ ret, RowInv.Pres now (refRow now) (cleanServers2 ret)) ∧
+    (∀ ret, RowInv.Pres now (refRow now) (cleanInstances ret)) ∧
+    (∀ l st, RowInv.Pres now (refRow now) (listServers l st)) :=
+  have hc := refRow_closed now
+  ⟨fun z m req => RowInv.report_pres hc z m req (refRow_fresh now _).1,
+   fun i ip => RowInv.renew_pres i ip fun a => (refRow_fresh now a).1,
+   fun i a => RowInv.remove_pres i a,
+   fun prb outcome => RowInv.probe_pres hc prb outcome (refRow_fresh now _).1,
+   fun m d => RowInv.refresh_pres m d,
+   fun m a b c d e f => RowInv.revive_pres m a b c d e f,
+   fun z m a => RowInv.addServer_pres hc z m a (refRow_fresh now _).2,
+   fun ret => RowInv.cleanServers_pres ret,
+   fun ret => RowInv.cleanServers2_pres ret,
+   fun ret => RowInv.cleanInstances_pres ret,
+   fun l st => RowInv.listServers_pres l st⟩
+
+/-- the three facts that travel together: rows under their keys, `refreshedAt ≤ updatedAt`, clock not behind -/
+def RefInv (s : AbsState) (now : Int) : Prop := Keyed s ∧ RefLeUpd s ∧ ClockAfter s now
+
+theorem RefInv.tick {s : AbsState} {now now' : Int} (h : RefInv s now) (hle : now ≤ now') : RefInv s now' :=
+  ⟨h.1, h.2.1, h.2.2.mono hle⟩
+
+/-- a program that walks as `RowInv.Pres` keeps `RefInv`, run to completion or stopped / faulted anywhere -/
+theorem refInv_of_pres {α : Type} {p : Prog α} {now : Int} (hp : RowInv.Pres now (refRow now) p) (s : AbsState)
+    (h : RefInv s now) : RefInv (p.run s now).1 now ∧ ∀ cs, RefInv (p.runChoices cs s now) now := by
+  have hall := (allRows_refRow s now).2 ⟨h.2.1, h.2.2⟩
+  constructor
+  · obtain ⟨a, b⟩ := hp.run (refRow_closed now) s h.1 hall
+    exact ⟨a, ((allRows_refRow _ now).1 b).1, ((allRows_refRow _ now).1 b).2⟩
+  · intro cs
+    obtain ⟨a, b⟩ := hp.runChoices (refRow_closed now) cs s h.1 hall
+    exact ⟨a, ((allRows_refRow _ now).1 b).1, ((allRows_refRow _ now).1 b).2⟩
+
+/-- **C14 (`refreshedAt ≤ updatedAt` is an invariant).**  From a store with `RefInv` (in particular the empty one) every
+use case — report, keepalive, removal, probe outcome handling, refresh, revival, REST submission, both forms of the server
+cleanup, instance cleanup, listing — run at a clock value `now` that is not before any stored update time leaves a store
+with `RefInv` again: after a complete run (`Prog.run`) and after every crash / fault prefix of it (`Prog.runChoices`).
+With `RefInv.tick` (the clock may advance between use cases) this makes `RefLeUpd` hold in every state reached by any
+sequence of use-case executions on a monotone clock. -/
+theorem refLeUpd_preserved (s : AbsState) (now : Int) (h : RefInv s now) :
+    (∀ z m req, RefInv ((UC.report z m req).run s now).1 now ∧ ∀ cs, RefInv ((UC.report z m req).runChoices cs s now) now) ∧
+    (∀ i ip, RefInv ((UC.renew i ip).run s now).1 now ∧ ∀ cs, RefInv ((UC.renew i ip).runChoices cs s now) now) ∧
+    (∀ i a, RefInv ((UC.remove i a).run s now).1 now ∧ ∀ cs, RefInv ((UC.remove i a).runChoices cs s now) now) ∧
+    (∀ prb o, RefInv ((UC.probe prb o).run s now).1 now ∧ ∀ cs, RefInv ((UC.probe prb o).runChoices cs s now) now) ∧
+    (∀ m d, RefInv ((UC.refresh m d).run s now).1 now ∧ ∀ cs, RefInv ((UC.refresh m d).runChoices cs s now) now) ∧
+    (∀ m a b c d e f, RefInv ((UC.revive m a b c d e f).run s now).1 now ∧
+      ∀ cs, RefInv ((UC.revive m a b c d e f).runChoices cs s now) now) ∧
+    (∀ z m a, RefInv ((UC.addServer z m a).run s now).1 now ∧ ∀ cs, RefInv ((UC.addServer z m a).runChoices cs s now) now) ∧
+    (∀ ret, RefInv ((cleanServers ret).run s now).1 now ∧ ∀ cs, RefInv ((cleanServers ret).runChoices cs s now) now) ∧
+    (∀ ret, RefInv ((cleanServers2 ret).run s now).1 now ∧ ∀ cs, RefInv ((cleanServers2 ret).runChoices cs s now) now) ∧
+    (∀ ret, RefInv ((cleanInstances ret).run s now).1 now ∧ ∀ cs, RefInv ((cleanInstances ret).runChoices cs s now) now) := by
+  obtain ⟨h1, h2, h3, h4, h5, h6, h7, h8, h9, h10, _⟩ := usecases_write_refLeNow now
+  exact ⟨fun z m req => refInv_of_pres (h1 z m req) s h, fun i ip => refInv_of_pres (h2 i ip) s h,
+    fun i a => refInv_of_pres (h3 i a) s h, fun prb o => refInv_of_pres (h4 prb o) s h,
+    fun m d => refInv_of_pres (h5 m d) s h, fun m a b c d e f => refInv_of_pres (h6 m a b c d e f) s h,
+    fun z m a => refInv_of_pres (h7 z m a) s h, fun ret => refInv_of_pres (h8 ret) s h,
+    fun ret => refInv_of_pres (h9 ret) s h, fun ret => refInv_of_pres (h10 ret) s h⟩
+
+/-- the empty store satisfies the invariant at every clock value -/
+theorem refInv_empty (now : Int) : RefInv {} now :=
+  ⟨fun k row h => by simp at h, fun k row h => by simp at h, fun k row h => by simp at h⟩
+
+/-- `refreshed_not_scanned` with the per-row hypothesis replaced by the invariant -/
+theorem refreshed_not_scanned_inv (s : AbsState) (cutoff : Int) (hinv : RefLeUpd s) (kv : Nat × SRow) (t : Int)
+    (hmem : kv ∈ s.servers.toList) (hr : kv.2.svr.refreshedAt = some t) (ht : t > cutoff) :
+    ({ updatedBefore := some cutoff } : FilterSet).pred kv.2 = false :=
+  refreshed_not_scanned s cutoff kv t hmem hr ht
+    (hinv kv.1 kv.2 (ExtTreeMap.mem_toList_iff_getElem?_eq_some.1 hmem) t hr)
+
+/-- **C14 (a server refreshed after the cutoff is kept by a pass)**, from the invariant: in a store with `Keyed` and
+`RefLeUpd` a record whose refresh time is after `now − ret` is stored unchanged after `ServerCleaner.Clean`. -/
+theorem clean_keeps_refreshed (s : AbsState) (now ret : Int) (hk : Keyed s) (hinv : RefLeUpd s)
+    (k : Nat) (row : SRow) (t : Int) (hrow : s.servers[k]? = some row) (hr : row.svr.refreshedAt = some t)
+    (ht : t > now - ret) : ((cleanServers ret).run s now).1.servers[k]? = some row := by
+  have := hinv k row hrow t hr
+  exact (clean_complete s now ret hk).2.1 k row hrow (by omega)
+
+/-- **C14 (race theorem restated from an invariant-satisfying start).**  Start from any store with `RefInv` at clock
+`now`; let any use case `p` run there (completely, or stopped / faulted anywhere); then let a cleanup pass with retention
+`ret` run at any clock value `now'`.  Every server whose record, after `p`, carries a refresh time after the
+cutoff `now' − ret` — in particular the one a heartbeat, keepalive or successful probe just refreshed — is still stored,
+unchanged, after the pass.  No per-row hypothesis is left: `refreshedAt ≤ updatedAt` is derived. -/
+theorem refreshed_survives_pass {α : Type} (p : Prog α) (now now' ret : Int) (hp : RowInv.Pres now (refRow now) p)
+    (s : AbsState) (h : RefInv s now) (cs : List Choice) (k : Nat) (row : SRow) (t : Int) :
+    (((p.run s now).1.servers[k]? = some row → row.svr.refreshedAt = some t → t > now' - ret →
+      ((cleanServers ret).run (p.run s now).1 now').1.servers[k]? = some row)) ∧
+    ((p.runChoices cs s now).servers[k]? = some row → row.svr.refreshedAt = some t → t > now' - ret →
+      ((cleanServers ret).run (p.runChoices cs s now) now').1.servers[k]? = some row) := by
+  obtain ⟨h1, h2⟩ := refInv_of_pres hp s h
+  exact ⟨fun hrow hr ht => clean_keeps_refreshed _ now' ret h1.1 h1.2.1 k row t hrow hr ht,
+    fun hrow hr ht => clean_keeps_refreshed _ now' ret (h2 cs).1 (h2 cs).2.1 k row t hrow hr ht⟩
+
+/-! ### the pass at storage-command granularity (`cleanServers2`) -/
+
+/-- under the invariant the scan/fetch form of the pass, run without interference, does exactly what the atomic form
+does: the fetch returns the scanned copies, and the repaired guard (skip what was refreshed after the cutoff) never
+fires because a stale record's refresh time is `≤` its update time `<` cutoff -/
+theorem cleanServers2_run_eq (s : AbsState) (now ret : Int) (hk : Keyed s) (hinv : RefLeUpd s) :
+    (cleanServers2 ret).run s now = (cleanServers ret).run s now := by
+  obtain ⟨f1, f2⟩ := CleanComplete.filter_scanned s { updatedBefore := some (now - ret) } hk
+  have hmem : ∀ sv ∈ s.filter { updatedBefore := some (now - ret) },
+      ∃ row, s.servers[sv.addr.key]? = some row ∧ row.svr = sv ∧ row.updatedAt < now - ret := by
+    intro sv hsv
+    obtain ⟨row, hrow, hp⟩ := (f2 sv.addr.key).1 (List.mem_map.2 ⟨sv, hsv, rfl⟩)
+    exact ⟨row, hrow, f1 sv hsv row hrow, (stale_pred _ _).1 hp⟩
+  have hfetch := CleanComplete.fetch_scanned s (s.filter { updatedBefore := some (now - ret) })
+    (fun sv hsv => by obtain ⟨row, a, b, _⟩ := hmem sv hsv; exact ⟨row, a, b⟩)
+  have hguard : guarded (now - ret) (s.filter { updatedBefore := some (now - ret) }) =
+      s.filter { updatedBefore := some (now - ret) } := by
+    unfold guarded
+    rw [List.filter_eq_self]
+    intro sv hsv
+    obtain ⟨row, hrow, hs, hlt⟩ := hmem sv hsv
+    cases hr : sv.refreshedAt with
+    | none => rfl
+    | some t =>
+      have := hinv _ row hrow t (by rw [hs]; exact hr)
+      simp only [Bool.not_eq_true', decide_eq_false_iff_not]
+      omega
+  simp only [cleanServers2_shape, cleanServers, Prog.run_call, Call.exec]
+  cases hl : s.filter { updatedBefore := some (now - ret) } with
+  | nil => simp [removeAll]
+  | cons sv rest =>
+    rw [hl] at hfetch hguard
+    simp only [List.isEmpty_cons, Bool.false_eq_true, if_false, Prog.run_call, Call.exec]
+    rw [hfetch, hguard]
+
+/-- **C14 (a pass is complete and exact), for the scan / fetch / delete form the driver runs**: as `clean_complete`,
+from a store with `Keyed` and `RefLeUpd` -/
+theorem clean_complete2 (s : AbsState) (now ret : Int) (hk : Keyed s) (hinv : RefLeUpd s) :
+    (∀ (k : Nat) (row : SRow), s.servers[k]? = some row → row.updatedAt < now - ret → ((cleanServers2 ret).run s now).1.servers[k]? = none) ∧
+    (∀ (k : Nat) (row : SRow), s.servers[k]? = some row → ¬ row.updatedAt < now - ret → ((cleanServers2 ret).run s now).1.servers[k]? = some row) ∧
+    (∀ k : Nat, ((cleanServers2 ret).run s now).1.servers[k]? = none ∨ ((cleanServers2 ret).run s now).1.servers[k]? = s.servers[k]?) ∧
+    (∀ (k : Nat) (row : SRow) (t : Int), s.servers[k]? = some row → row.svr.refreshedAt = some t → t > now - ret →
+      ((cleanServers2 ret).run s now).1.servers[k]? = some row) ∧
+    ((cleanServers2 ret).run s now).2 = ((s.filter { updatedBefore := some (now - ret) }).length, 0) := by
+  rw [cleanServers2_run_eq s now ret hk hinv]
+  obtain ⟨a, b, c, _, _, f⟩ := clean_complete s now ret hk
+  exact ⟨a, b, c, fun k row t hrow hr ht => clean_keeps_refreshed s now ret hk hinv k row t hrow hr ht, f⟩
+
+/-! ### instance cleanup: which instances remain -/
+
+/-- **C14 (instance cleanup, state version)**: after `InstanceCleaner.Clean` at clock `now` with retention `ret` an
+instance is gone iff it was not written since `now − ret` (update time `≤ now − ret`: inclusive, as coded), every other
+instance is stored unchanged; registry and queue are untouched (through `C11.insClear_spec`) -/
+theorem clean_instances_state (s : AbsState) (now ret : Int) (id : Nat) :
+    (∀ v, s.instances[id]? = some v → v.2 ≤ now - ret → ((cleanInstances ret).run s now).1.instances[id]? = none) ∧
+    (∀ v, s.instances[id]? = some v → now - ret < v.2 → ((cleanInstances ret).run s now).1.instances[id]? = some v) ∧
+    (s.instances[id]? = none → ((cleanInstances ret).run s now).1.instances[id]? = none) ∧
+    ((cleanInstances ret).run s now).1.servers = s.servers ∧ ((cleanInstances ret).run s now).1.queue = s.queue := by
+  have hrun : ((cleanInstances ret).run s now).1 = (s.insClear (some (now - ret))).1 := rfl
+  rw [hrun]
+  have hspec := C11.insClear_spec s (some (now - ret)) id
+  refine ⟨?_, ?_, ?_, rfl, rfl⟩
+  · intro v hv hle
+    rw [hspec, if_pos ⟨v, hv, fun b hb => by cases hb; exact hle⟩]
+  · intro v hv hlt
+    rw [hspec, if_neg, hv]
+    rintro ⟨v', hv', hb⟩
+    rw [hv] at hv'; cases hv'
+    have := hb _ rfl
+    omega
+  · intro hn
+    rw [hspec, if_neg, hn]
+    rintro ⟨v', hv', _⟩
+    rw [hn] at hv'; cases hv'
+
+/-! ## the refresh time changes only on a heartbeat, a keepalive or a successful probe -/
+
+/-- the row `row'` stored under key `k` after a run carries the refresh time that was stored under `k` before it (or the
+key is new and the record has never been refreshed) -/
+def RefUnchanged (s : AbsState) (k : Nat) (row' : SRow) : Prop :=
+  (∃ row : SRow, s.servers[k]? = some row ∧ row.svr.refreshedAt = row'.svr.refreshedAt) ∨
+  (s.servers[k]? = none ∧ row'.svr.refreshedAt = none)
+
+/-- the row predicate: refresh time as before the run in `s0`, or `now` under a key the use case may refresh (`A`) -/
+def refOnly (s0 : AbsState) (now : Int) (A : Nat → Prop) (row : SRow) : Prop :=
+  RefUnchanged s0 row.svr.addr.key row ∨ (A row.svr.addr.key ∧ row.svr.refreshedAt = some now)
+
+theorem refOnly_closed (s0 : AbsState) (now : Int) (A : Nat → Prop) : RowInv.Closed now (refOnly s0 now A) where
+  fld := by
+    intro sv sv' u ha hr h
+    unfold refOnly RefUnchanged at h ⊢
+    simp only [ha, hr]
+    exact h
+  read := fun sv u h => h
+
+theorem refOnly_init (s0 : AbsState) (now : Int) (A : Nat → Prop) (hk : Keyed s0) : RowInv.AllRows (refOnly s0 now A) s0 := by
+  intro k row hrow
+  refine Or.inl (Or.inl ⟨row, ?_, rfl⟩)
+  rw [hk k row hrow]; exact hrow
+
+/-- a program that walks as `RowInv.Pres` for `refOnly`: every row stored after the run has its old refresh time, or
+`now` under an allowed key -/
+theorem run_refOnly {α : Type} (p : Prog α) (s : AbsState) (now : Int) (A : Nat → Prop) (hk : Keyed s)
+    (hp : RowInv.Pres now (refOnly s now A) p) (k : Nat) (row' : SRow) (h : (p.run s now).1.servers[k]? = some row') :
+    RefUnchanged s k row' ∨ (A k ∧ row'.svr.refreshedAt = some now) := by
+  obtain ⟨a, b⟩ := hp.run (refOnly_closed s now A) s hk (refOnly_init s now A hk)
+  have := b k row' h
+  unfold refOnly at this
+  rw [a k row' h] at this
+  exact this
+
+theorem run_refSame {α : Type} (p : Prog α) (s : AbsState) (now : Int) (hk : Keyed s)
+    (hp : RowInv.Pres now (refOnly s now fun _ => False) p) (k : Nat) (row' : SRow)
+    (h : (p.run s now).1.servers[k]? = some row') : RefUnchanged s k row' := by
+  rcases run_refOnly p s now _ hk hp k row' h with h | h
+  · exact h
+  · exact h.1.elim
+
+theorem refOnly_fresh (s0 : AbsState) (now : Int) (a : Addr) : RowInv.Fresh now (refOnly s0 now (· = a.key)) a :=
+  fun _ hkey hr => Or.inr ⟨hkey, hr⟩
+
+/-- **C14 ("last heartbeat, keepalive or successful probe").**  For every use case run at clock `now` from a store with
+rows under their keys, and every row stored afterwards under a key `k`: its refresh time is the one stored under `k`
+before the run (a record created by the REST submission has none) — `RefUnchanged` — except that it may be `now`
+ * under the reporter's key after `reportserver.Execute`,
+ * under the key of the address bound to the instance after `renewserver.Execute` (keepalive), and only if the datagram
+   came from that address's IP,
+ * under the probe's key after `probeserver.Execute` with a successful outcome.
+A failed probe (retry or final failure), refresh, revival, REST submission, removal, both cleaners and the listing leave
+every stored refresh time as it was.  (`report_rejected_unchanged` / `renew_rejected_unchanged`: a rejected heartbeat or
+keepalive changes nothing at all.) -/
+theorem refreshedAt_changes_only_by (s : AbsState) (now : Int) (hk : Keyed s) (k : Nat) (row' : SRow) :
+    (∀ z m req, ((UC.report z m req).run s now).1.servers[k]? = some row' →
+      RefUnchanged s k row' ∨ (k = req.addr.key ∧ row'.svr.refreshedAt = some now)) ∧
+    (∀ i ip, ((UC.renew i ip).run s now).1.servers[k]? = some row' →
+      RefUnchanged s k row' ∨
+        (∃ (a : Addr) (u : Int), s.instances[i]? = some (a, u) ∧ a.ip = ip ∧ k = a.key ∧ row'.svr.refreshedAt = some now)) ∧
+    (∀ prb res, ((UC.probe prb (some res)).run s now).1.servers[k]? = some row' →
+      RefUnchanged s k row' ∨ (k = prb.addr.key ∧ row'.svr.refreshedAt = some now)) ∧
+    (∀ prb, ((UC.probe prb none).run s now).1.servers[k]? = some row' → RefUnchanged s k row') ∧
+    (∀ m d, ((UC.refresh m d).run s now).1.servers[k]? = some row' → RefUnchanged s k row') ∧
+    (∀ m a b c d e f, ((UC.revive m a b c d e f).run s now).1.servers[k]? = some row' → RefUnchanged s k row') ∧
+    (∀ z m a, ((UC.addServer z m a).run s now).1.servers[k]? = some row' → RefUnchanged s k row') ∧
+    (∀ i a, ((UC.remove i a).run s now).1.servers[k]? = some row' → RefUnchanged s k row') ∧
+    (∀ ret, ((cleanServers ret).run s now).1.servers[k]? = some row' → RefUnchanged s k row') ∧
+    (∀ ret, ((cleanServers2 ret).run s now).1.servers[k]? = some row' → RefUnchanged s k row') ∧
+    (∀ ret, ((cleanInstances ret).run s now).1.servers[k]? = some row' → RefUnchanged s k row') ∧
+    (∀ l st, ((listServers l st).run s now).1.servers[k]? = some row' → RefUnchanged s k row') := by
+  have same : ∀ {α : Type} (p : Prog α), RowInv.Pres now (refOnly s now fun _ => False) p →
+      (p.run s now).1.servers[k]? = some row' → RefUnchanged s k row' :=
+    fun p hp h => run_refSame p s now hk hp k row' h
+  have hc0 := refOnly_closed s now (fun _ => False)
+  refine ⟨?_, ?_, ?_, fun prb => same _ (RowInv.probe_none_pres hc0 prb), fun m d => same _ (RowInv.refresh_pres m d),
+    fun m a b c d e f => same _ (RowInv.revive_pres m a b c d e f), ?_, fun i a => same _ (RowInv.remove_pres i a),
+    fun ret => same _ (RowInv.cleanServers_pres ret), fun ret => same _ (RowInv.cleanServers2_pres ret),
+    fun ret => same _ (RowInv.cleanInstances_pres ret), fun l st => same _ (RowInv.listServers_pres l st)⟩
+  · intro z m req h
+    exact run_refOnly _ s now (· = req.addr.key) hk
+      (RowInv.report_pres (refOnly_closed s now _) z m req (refOnly_fresh s now req.addr)) k row' h
+  · intro i ip h
+    rw [RowInv.renew_eq, Prog.run_call] at h
+    simp only [Call.exec, AbsState.insGet] at h
+    cases hi : s.instances[i]? with
+    | none =>
+      rw [hi] at h
+      exact Or.inl (same (pure (Except.error (UErr.repo .instanceNotFound)) : Prog (Except UErr Unit)) (RowInv.Pres.pure _) h)
+    | some v =>
+      obtain ⟨a, u⟩ := v
+      rw [hi] at h
+      by_cases hip : a.ip = ip
+      · rcases run_refOnly _ s now (· = a.key) hk
+          (RowInv.renewTail_pres ⟨i, a⟩ ip (refOnly_fresh s now a)) k row' h with h' | h'
+        · exact Or.inl h'
+        · exact Or.inr ⟨a, u, rfl, hip, h'.1, h'.2⟩
+      · have : RowInv.renewTail ⟨i, a⟩ ip = pure (.error .unknownInstance) := by
+          unfold RowInv.renewTail; rw [if_pos hip]
+        simp only [this] at h
+        exact Or.inl (same (pure (Except.error UErr.unknownInstance) : Prog (Except UErr Unit)) (RowInv.Pres.pure _) h)
+  · intro prb res h
+    exact run_refOnly _ s now (· = prb.addr.key) hk
+      (RowInv.probe_pres (refOnly_closed s now _) prb (some res) (refOnly_fresh s now prb.addr)) k row' h
+  · intro z m a h
+    rw [RowInv.addServer_eq, Prog.run_call] at h
+    simp only [Call.exec, AbsState.get] at h
+    cases hrow : s.getRow a with
+    | some row =>
+      rw [hrow] at h
+      have hrow' : s.servers[a.key]? = some row := hrow
+      exact same _ (RowInv.maybeDiscoverServer_pres hc0 m row.svr
+        (RowInv.held_of_row hc0 (refOnly_init s now _ hk) hrow')) h
+    | none =>
+      rw [hrow] at h
+      have hrow' : s.servers[a.key]? = none := hrow
+      refine same _ (RowInv.addServerNew_pres hc0 z m a ?_) h
+      intro sv hsv hr
+      exact Or.inl (Or.inr ⟨by rw [hsv]; exact hrow', hr⟩)
+
+/-- a heartbeat that is rejected (`ErrInvalidRequestPayload`: the info does not parse / validate) changes nothing -/
+theorem report_rejected_unchanged (s : AbsState) (now : Int) (z : Fields) (m : Int) (req : ReportReq)
+    (h : req.info = none) : ((UC.report z m req).run s now).1 = s := by
+  simp only [UC.report, h, Prog.run_call, Call.exec]
+  cases s.get req.addr with
+  | ok svr => rfl
+  | error e =>
+    cases e with
+    | serverNotFound =>
+      simp only
+      cases newServer z req.addr req.queryPort <;> rfl
+    | _ => rfl
+
+/-- a keepalive for an unknown instance, or from another IP than the instance's server, changes nothing -/
+theorem renew_rejected_unchanged (s : AbsState) (now : Int) (i ip : Nat)
+    (h : ∀ (a : Addr) (u : Int), s.instances[i]? = some (a, u) → a.ip ≠ ip) : ((UC.renew i ip).run s now).1 = s := by
+  simp only [UC.renew, Prog.run_call, Call.exec, AbsState.insGet]
+  cases hi : s.instances[i]? with
+  | none => rfl
+  | some v =>
+    obtain ⟨a, u⟩ := v
+    simp only [if_pos (h a u hi)]
+    rfl
+
+/-! ## concrete instances (non-vacuity) and witnesses that the hypotheses are needed -/
+
+namespace W
+/-- server A -/
+def A : Addr := ⟨1, 10480⟩
+/-- A's record as stored: version 4, refreshed and written at 10 -/
+def fresh : Server := { addr := A, queryPort := 10481, status := Status.master ||| Status.info, info := [], details := ⟨[], [], []⟩, refreshedAt := some 10, version := 4 }
+/-- the copy of A's record a cleanup pass scanned before the refresh: version 3, refreshed at 0 -/
+def staleCopy : Server := { fresh with refreshedAt := some 0, version := 3 }
+/-- the registry holds A's refreshed record -/
+def state : AbsState := { servers := (∅ : ExtTreeMap Nat SRow).insert A.key ⟨fresh, 10⟩ }
+/-- a registry in which A's record violates `refreshedAt ≤ updatedAt`: refreshed at 10, update score 0 -/
+def skewed : AbsState := { servers := (∅ : ExtTreeMap Nat SRow).insert A.key ⟨fresh, 0⟩ }
+
+theorem state_row (k : Nat) (row : SRow) (h : state.servers[k]? = some row) : k = A.key ∧ row = ⟨fresh, 10⟩ := by
+  simp only [state, ExtTreeMap.getElem?_insert] at h
+  split at h
+  · rename_i hk
+    cases h
+    exact ⟨by simpa using Eq.symm (by simpa using hk : A.key = k), rfl⟩
+  · simp at h
+
+theorem state_at : state.servers[A.key]? = some ⟨fresh, 10⟩ := by simp [state]
+
+theorem state_keyed : Keyed state := by
+  intro k row h
+  obtain ⟨rfl, rfl⟩ := state_row k row h
+  rfl
+
+theorem state_refInv : RefInv state 10 := by
+  refine ⟨state_keyed, ?_, ?_⟩
+  · intro k row h t ht
+    obtain ⟨rfl, rfl⟩ := state_row k row h
+    cases ht; decide
+  · intro k row h
+    obtain ⟨rfl, rfl⟩ := state_row k row h
+    decide
+
+theorem skewed_keyed : Keyed skewed := by
+  intro k row h
+  simp only [skewed, ExtTreeMap.getElem?_insert] at h
+  split at h
+  · rename_i hk
+    cases h
+    have : A.key = k := by simpa using hk
+    exact this
+  · simp at h
+end W
+
+/-- **`C14_race` applied to one concrete store and scan list**: the pass (cutoff 3) works through the copy of A it scanned
+before A was refreshed (version 3); the stored record (version 4, refreshed at 10 > 3) survives the deletions unchanged -/
+example : ((removeAll 3 [W.staleCopy] 0 0).run W.state 12).1.servers[W.A.key]? = some ⟨W.fresh, 10⟩ :=
+  C14_race 3 12 [W.staleCopy] W.state 0 0 W.A.key ⟨W.fresh, 10⟩ 10 W.state_keyed W.state_at rfl (by decide)
+    (by intro sv hsv _; simp only [List.mem_singleton] at hsv; subst hsv; decide)
+
+/-- … and `C14_window`: the fetched list holds the refreshed record itself and the older copy -/
+example : ((removeAll 3 (guarded 3 [W.fresh, W.staleCopy]) 0 0).run W.state 12).1.servers[W.A.key]? = some ⟨W.fresh, 10⟩ :=
+  C14_window 3 12 [W.fresh, W.staleCopy] W.state W.A.key ⟨W.fresh, 10⟩ 10 W.state_keyed W.state_at rfl (by decide)
+    (by
+      intro sv hsv _
+      simp only [List.mem_cons, List.not_mem_nil, or_false] at hsv
+      rcases hsv with rfl | rfl
+      · exact Or.inl rfl
+      · exact Or.inr (by decide))
+
+/-- `clean_complete` / `clean_complete2` on the concrete store: at clock 100 with retention 10 A's record (written at 10 < 90)
+is removed by both forms of the pass; at clock 15 it is kept, unchanged -/
+example : ((cleanServers 10).run W.state 100).1.servers[W.A.key]? = none ∧
+    ((cleanServers2 10).run W.state 100).1.servers[W.A.key]? = none ∧
+    ((cleanServers 10).run W.state 15).1.servers[W.A.key]? = some ⟨W.fresh, 10⟩ ∧
+    ((cleanServers2 10).run W.state 15).1.servers[W.A.key]? = some ⟨W.fresh, 10⟩ :=
+  ⟨(clean_complete W.state 100 10 W.state_keyed).1 _ _ W.state_at (by decide),
+   (clean_complete2 W.state 100 10 W.state_keyed W.state_refInv.2.1).1 _ _ W.state_at (by decide),
+   clean_keeps_refreshed W.state 15 10 W.state_keyed W.state_refInv.2.1 _ _ 10 W.state_at rfl (by decide),
+   (clean_complete2 W.state 15 10 W.state_keyed W.state_refInv.2.1).2.2.2.1 _ _ 10 W.state_at rfl (by decide)⟩
+
+/-- **`RefLeUpd` is needed for the scan / fetch form** (and is what makes the two forms agree): on a store whose record
+has update score 0 but refresh time 10, at clock 20 with retention 15 (cutoff 5) the atomic form removes the record (its
+version is the scanned one, the conflict callback is not consulted) while the scan / fetch form's guard keeps it -/
+example : W.skewed.servers[W.A.key]? = some ⟨W.fresh, 0⟩ ∧ ¬ RefLeUpd W.skewed ∧
+    ((cleanServers 15).run W.skewed 20).1.servers[W.A.key]? = none ∧
+    ((cleanServers2 15).run W.skewed 20).1.servers[W.A.key]? = some ⟨W.fresh, 0⟩ := by
+  have hat : W.skewed.servers[W.A.key]? = some ⟨W.fresh, 0⟩ := by simp [W.skewed]
+  refine ⟨hat, ?_, (clean_complete W.skewed 20 15 W.skewed_keyed).1 _ _ hat (by decide), by decide⟩
+  intro h
+  exact absurd (h _ _ hat 10 rfl) (by decide)
+
+/-- **the monotone-clock hypothesis of `refLeUpd_preserved` is needed**: `W.state` satisfies `RefLeUpd`, but when the clock
+reads 5 (before the stored update time 10) the final failure of a probe rewrites A's record — refresh time 10 kept — with
+update score 5 -/
+example : RefLeUpd W.state ∧ ¬ ClockAfter W.state 5 ∧
+    ¬ RefLeUpd ((UC.probe ⟨W.A, 10481, .details, 0, 0⟩ none).run W.state 5).1 := by
+  refine ⟨W.state_refInv.2.1, fun h => absurd (h _ _ W.state_at) (by decide), ?_⟩
+  intro h
+  have hat : ((UC.probe ⟨W.A, 10481, .details, 0, 0⟩ none).run W.state 5).1.servers[W.A.key]? =
+      some ⟨{ W.fresh with status := failureStatus .details W.fresh.status, version := 5 }, 5⟩ := by decide
+  exact absurd (h _ _ hat 10 rfl) (by decide)
+
+/-- `refLeUpd_preserved`, `refreshed_survives_pass` from the empty store: a first heartbeat at clock 10 creates A's record
+refreshed and written at 10; a pass at clock 15 with retention 10 keeps it -/
+example : let req : ReportReq := ⟨W.A, 10481, 7, some []⟩
+    ((UC.report [] 3 req).run {} 10).1.servers[W.A.key]? =
+      some ⟨{ W.fresh with status := Status.master ||| Status.info ||| Status.portRetry, version := 2 }, 10⟩ ∧
+    RefInv ((UC.report [] 3 req).run {} 10).1 10 ∧
+    ((cleanServers 10).run ((UC.report [] 3 req).run {} 10).1 15).1.servers[W.A.key]? =
+      some ⟨{ W.fresh with status := Status.master ||| Status.info ||| Status.portRetry, version := 2 }, 10⟩ := by
+  intro req
+  have hat : ((UC.report [] 3 req).run {} 10).1.servers[W.A.key]? =
+      some ⟨{ W.fresh with status := Status.master ||| Status.info ||| Status.portRetry, version := 2 }, 10⟩ := by decide
+  exact ⟨hat, ((refLeUpd_preserved {} 10 (refInv_empty 10)).1 [] 3 req).1,
+    (refreshed_survives_pass (UC.report [] 3 req) 10 15 10 ((usecases_write_refLeNow 10).1 [] 3 req) {} (refInv_empty 10) []
+      W.A.key _ 10).1 hat rfl (by decide)⟩
+
+/-- `refreshedAt_changes_only_by` on the concrete store: a keepalive of the instance bound to A at clock 20 sets A's refresh
+time to 20 (the allowed exception); a failed probe at clock 20 leaves it at 10 -/
+example :
+    (∃ row', ((UC.renew 7 1).run { W.state with instances := (∅ : ExtTreeMap Nat (Addr × Int)).insert 7 (W.A, 10) } 20).1.servers[W.A.key]? = some row' ∧
+      row'.svr.refreshedAt = some 20) ∧
+    (∃ row', ((UC.probe ⟨W.A, 10481, .details, 0, 0⟩ none).run W.state 20).1.servers[W.A.key]? = some row' ∧
+      row'.svr.refreshedAt = some 10) :=
+  ⟨⟨⟨{ W.fresh with refreshedAt := some 20, version := 5 }, 20⟩, by decide, rfl⟩,
+   ⟨⟨{ W.fresh with status := failureStatus .details W.fresh.status, version := 5 }, 20⟩, by decide, rfl⟩⟩
 
 /-- non-vacuity of `C14_race`: the empty registry is keyed, and a record refreshed after a cutoff exists -/
 example : Keyed {} := by intro k row h; simp at h
